@@ -1201,6 +1201,7 @@ fn run_v0(rng: &mut Rng, n: usize, s: &mut Session, cap: Duration) {
         let input = || format!("family=v0 i={i} gid={g} fg={fg} first={first} num={num} layers={nl} colr={colr_hex}");
         s.oracle("v0-base-glyph-range-as-written", *range_ok, input, || "v0_base_glyph range differs from the record".into());
         s.case("v0", format!("v0 {fg} {first} {num} {} {}", tbl.len(), tbl.join(" ")), r.clone());
+        s.case("bytes:v0", format!("v0.bytes {colr_hex} {fg} {g}"), r.clone());
         judge_common(s, r, &input);
         s.count(&format!("v0:result:{}", r.split(' ').next().unwrap_or("")));
         let oob = *num > 0 && *first as usize + *num as usize > *nl;
@@ -1287,9 +1288,13 @@ fn run(cfg: &Config, s: &mut Session) {
         labels.push((c.family, c.label.clone(), hex(&c.colr)));
     }
     let n_generated = cases.len();
+    // COLR table bytes per font (the byte-level model is evaluated from these alone)
+    let mut colr_bytes: Vec<Arc<String>> = cases.iter().map(|c| Arc::new(hex(&c.colr))).collect();
     for (name, data, _) in &test_fonts {
         fonts.push(data.clone());
         labels.push(("test-font", name.to_string(), format!("font_test_data::{name}")));
+        let tb = FontRef::new(data).ok().and_then(|f| f.table_data(Tag::new(b"COLR")).map(|d| d.as_bytes().to_vec())).unwrap_or_default();
+        colr_bytes.push(Arc::new(hex(&tb)));
     }
     for (ci, font) in fonts.iter().enumerate() {
         let gids: Vec<u32> = if ci < n_generated { cases[ci].gids.clone() } else { test_fonts[ci - n_generated].2.clone() };
@@ -1361,6 +1366,25 @@ fn run(cfg: &Config, s: &mut Session) {
             format!("paint {} {} {} {}", m.fg, m.cm, m.gid, m.req_tail),
             r.clone(),
         );
+        // byte-level model: the whole paint evaluated by Lean from the COLR table bytes alone (no
+        // harness-side decompilation).  The big test-font tables are sampled (list-backed byte reads).
+        let bytes_path = *family != "test-font" || m.gid % 9 == 0;
+        if bytes_path {
+            s.case(
+                match *family {
+                    "small-trees" => "bytes:small-trees",
+                    "chain" => "bytes:chain",
+                    "chain-mixed" => "bytes:chain-mixed",
+                    "cycle-colrglyph" => "bytes:cycle-colrglyph",
+                    "cycle-layers" => "bytes:cycle-layers",
+                    "random" => "bytes:random",
+                    "mutated" => "bytes:mutated",
+                    _ => "bytes:test-font",
+                },
+                format!("paint.bytes {} {} {} {}", colr_bytes[m.case], m.fg, m.cm, m.gid),
+                r.clone(),
+            );
+        }
         judge_common(s, r, &input);
         s.count(&format!("{family}:result:{head}"));
         s.count(&format!("client:fg={} cm={}", m.fg, m.cm));
@@ -1434,6 +1458,10 @@ fn run_blowup(rng: &mut Rng, s: &mut Session, thorough: bool) {
             if let Ok(c) = fr.colr() {
                 let inst = extract(&c, &[1]);
                 s.case("paint:glyphchain", format!("paint 1 0 1 {}", inst.request_tail()), r[0].clone());
+                if d <= 16 {
+                    s.case("bytes:glyphchain", format!("paint.bytes {} 1 0 1", hex(&colr)), r[0].clone());
+                    s.case("bytes:glyphchain", format!("visits.bytes {} 1 0 1", hex(&colr)), (3u64 * (1u64 << (d - 1)) - 1).to_string());
+                }
                 s.case("visits:glyphchain", format!("visits 1 0 1 {}", inst.request_tail()), (3u64 * (1u64 << (d - 1)) - 1).to_string());
             }
         }
